@@ -202,4 +202,160 @@ theorem candidates_shape (pp : List Vec3) (pelems : List String) (atol m : Rat) 
       exact ⟨by omega, hae⟩
     · intro k hk j hj; omega
 
+/-! ### the pieces of `findGroups` / `find`, named; decomposition of a reported match -/
+
+/-- the pieces of `findGroups`, named -/
+def FindInput.maxSq (inp : FindInput) : Rat := maxRat (inp.ppos.flatMap (fun p => inp.ppos.map (fun r => distSq p r)))
+def FindInput.allPos (inp : FindInput) : List Vec3 := allPositions inp.cell inp.pos
+def FindInput.near (inp : FindInput) : List Nat := nearIndices inp.cell inp.allPos inp.maxSq inp.atol
+def FindInput.nearPosL (inp : FindInput) : List Vec3 := inp.near.map (fun i => inp.allPos.getD i Vec3.zero)
+def FindInput.nearElemL (inp : FindInput) : List String := inp.near.map (fun i => inp.elems.getD (i % inp.pos.length) "")
+def FindInput.cands (inp : FindInput) : List (List Nat) :=
+  candidates inp.ppos inp.pelems inp.atol inp.maxSq inp.pos.length inp.nearPosL inp.nearElemL
+def FindInput.candsAll (inp : FindInput) : List (List Nat) := inp.cands.map (fun t => t.map (fun k => inp.near.getD k 0))
+def FindInput.grouped (inp : FindInput) : List (List Nat × List (List Nat)) :=
+  groupBy (fun t : List Nat => sortNat (t.map (· % inp.pos.length))) inp.candsAll
+
+/-- the quaternion the search uses for candidate `i` of group `g` -/
+def candQuat (oracle : Nat → Nat → Quat) (g i : Nat) (t : List Nat) : Quat :=
+  if t.length > 1 then oracle g i else Quat.identity
+
+theorem findGroups_eq (inp : FindInput) (ax1 : Nat) (oracle : Nat → Nat → Quat) :
+    findGroups inp ax1 oracle = (inp.near, inp.grouped.zipIdx.map (fun (kg, g) =>
+      { key := kg.1, tuples := kg.2,
+        good := (List.range kg.2.length).filter (fun i =>
+          goodCheck inp.ppos ax1 inp.atol (candQuat oracle g i (kg.2.getD i []))
+            ((kg.2.getD i []).map (fun k => inp.allPos.getD k Vec3.zero))) })) := rfl
+
+/-- `random.choice` among the candidates that passed the re-check (none / the only one / the chooser's) -/
+def pickOf (choose : Nat → List Nat → Nat) (gi : Nat) (good : List Nat) : Option Nat :=
+  match good with
+  | [] => none
+  | [i] => some i
+  | many => some (many.getD (choose gi many % many.length) 0)
+
+def mkMatch (inp : FindInput) (oracle : Nat → Nat → Quat) (gi i : Nat) (t : List Nat) : Match :=
+  { idx := t.map (· % inp.pos.length), pos := t.map (fun k => inp.allPos.getD k Vec3.zero),
+    q := candQuat oracle gi i t }
+
+theorem find_eq (inp : FindInput) (ax1 : Nat) (oracle : Nat → Nat → Quat) (choose : Nat → List Nat → Nat) :
+    find inp ax1 oracle choose = (findGroups inp ax1 oracle).2.zipIdx.filterMap (fun (g, gi) =>
+      (pickOf choose gi g.good).map (fun i => mkMatch inp oracle gi i (g.tuples.getD i []))) := rfl
+
+theorem pickOf_mem (choose : Nat → List Nat → Nat) (gi : Nat) (good : List Nat) (i : Nat)
+    (h : pickOf choose gi good = some i) : i ∈ good := by
+  unfold pickOf at h
+  split at h
+  · cases h
+  · cases h; simp
+  · cases h
+    rename_i many h1 h2
+    have hne : good ≠ [] := by intro e; exact h1 e
+    have hpos : 0 < good.length := List.length_pos_iff.mpr hne
+    have hlt : choose gi good % good.length < good.length := Nat.mod_lt _ hpos
+    rw [List.getD_eq_getElem?_getD, List.getElem?_eq_getElem hlt]
+    simp
+
+
+/-- **decomposition of a reported match**: it is candidate `i` of group `gi`, it passed the rotation re-check with
+    the quaternion that is reported, and it is one of the enumerated candidates -/
+theorem find_mem (inp : FindInput) (ax1 : Nat) (oracle : Nat → Nat → Quat) (choose : Nat → List Nat → Nat)
+    (m : Match) (hm : m ∈ find inp ax1 oracle choose) :
+    ∃ gi kg i, inp.grouped[gi]? = some kg ∧ i < kg.2.length ∧
+      goodCheck inp.ppos ax1 inp.atol (candQuat oracle gi i (kg.2.getD i []))
+        ((kg.2.getD i []).map (fun k => inp.allPos.getD k Vec3.zero)) = true ∧
+      m = mkMatch inp oracle gi i (kg.2.getD i []) := by
+  rw [find_eq, findGroups_eq] at hm
+  obtain ⟨⟨g, gi⟩, hmem, hpick⟩ := List.mem_filterMap.mp hm
+  rw [List.mem_zipIdx_iff_getElem?] at hmem
+  simp only [List.getElem?_map, List.getElem?_zipIdx, Option.map_map, Option.map_eq_some_iff] at hmem
+  obtain ⟨kg, hkg, hg⟩ := hmem
+  simp only [Function.comp, Nat.zero_add] at hg
+  simp only [Option.map_eq_some_iff] at hpick
+  obtain ⟨i, hi, hmk⟩ := hpick
+  have hgood := pickOf_mem _ _ _ _ hi
+  subst hg
+  simp only [List.mem_filter, List.mem_range] at hgood
+  exact ⟨gi, kg, i, hkg, hgood.1, hgood.2, hmk.symm⟩
+
+
+/-! ### the 27 images -/
+
+theorem searchMultipliers_length : searchMultipliers.length = 27 := by decide
+
+theorem searchMultipliers_pm1 : ∀ mm ∈ searchMultipliers, mm.1 ∈ pm1 ∧ mm.2.1 ∈ pm1 ∧ mm.2.2 ∈ pm1 := by decide
+
+theorem allPositions_length (cell : Mat3) (pos : List Vec3) : (allPositions cell pos).length = 27 * pos.length := by
+  unfold allPositions
+  rw [flatMap_map_length (searchOffsets cell) pos (fun off p => Vec3.add p off)]
+  simp [searchOffsets, searchMultipliers_length]
+
+/-- entry `x` of the image list is atom `x % N` shifted by the lattice vector of image `x / N` -/
+theorem allPositions_getD (cell : Mat3) (pos : List Vec3) (x : Nat) (hx : x < (allPositions cell pos).length) :
+    ∃ i j l : Int, i ∈ pm1 ∧ j ∈ pm1 ∧ l ∈ pm1 ∧ searchMultipliers[x / pos.length]? = some (i, j, l) ∧
+      (allPositions cell pos).getD x Vec3.zero
+        = Vec3.add (pos.getD (x % pos.length) Vec3.zero) (cell.lattice i j l) := by
+  rw [allPositions_length] at hx
+  have hN : 0 < pos.length := by
+    rcases Nat.eq_zero_or_pos pos.length with h | h
+    · rw [h] at hx; simp at hx
+    · exact h
+  have hdiv : x / pos.length < 27 := by
+    rw [Nat.div_lt_iff_lt_mul hN]; exact hx
+  have hlt : x / pos.length < searchMultipliers.length := by rw [searchMultipliers_length]; exact hdiv
+  let mm := searchMultipliers[x / pos.length]
+  have hmem : mm ∈ searchMultipliers := List.getElem_mem hlt
+  obtain ⟨h1, h2, h3⟩ := searchMultipliers_pm1 mm hmem
+  refine ⟨mm.1, mm.2.1, mm.2.2, h1, h2, h3, ?_, ?_⟩
+  · rw [List.getElem?_eq_getElem hlt]
+  · unfold allPositions
+    rw [flatMap_map_getD (searchOffsets cell) pos (fun off p => Vec3.add p off) x Vec3.zero Vec3.zero Vec3.zero
+      (by simp [searchOffsets, searchMultipliers_length]; exact hx)]
+    congr 1
+    simp only [searchOffsets]
+    rw [List.getD_eq_getElem?_getD, List.getElem?_map, List.getElem?_eq_getElem hlt]
+    rfl
+
+theorem nearIndices_lt (cell : Mat3) (allPos : List Vec3) (m atol : Rat) :
+    ∀ x ∈ nearIndices cell allPos m atol, x < allPos.length := by
+  intro x hx
+  unfold nearIndices at hx
+  have := (List.mem_filter.mp hx).1
+  simpa using this
+
+
+theorem getD_map_lt {α β} (l : List α) (f : α → β) (k : Nat) (d : β) (d' : α) (h : k < l.length) :
+    (l.map f).getD k d = f (l.getD k d') := by
+  simp [List.getD_eq_getElem?_getD, List.getElem?_map, List.getElem?_eq_getElem h]
+
+/-- **witness of a reported match**: the candidate tuple `c` (positions in the near list) it was built from, with the
+    enumeration invariant, the passed re-check, and the way the match is assembled from it -/
+theorem find_witness (inp : FindInput) (ax1 : Nat) (oracle : Nat → Nat → Quat) (choose : Nat → List Nat → Nat)
+    (hpp : 0 < inp.ppos.length) (m : Match) (hm : m ∈ find inp ax1 oracle choose) :
+    ∃ gi i c,
+      CandOK inp.ppos inp.pelems inp.atol (fun k => inp.nearPosL.getD k Vec3.zero) (fun k => inp.nearElemL.getD k "")
+        inp.near.length inp.ppos.length c ∧
+      goodCheck inp.ppos ax1 inp.atol (candQuat oracle gi i (c.map (fun k => inp.near.getD k 0)))
+        ((c.map (fun k => inp.near.getD k 0)).map (fun k => inp.allPos.getD k Vec3.zero)) = true ∧
+      m = mkMatch inp oracle gi i (c.map (fun k => inp.near.getD k 0)) := by
+  obtain ⟨gi, kg, i, hkg, hi, hgood, hmk⟩ := find_mem inp ax1 oracle choose m hm
+  have hkgmem : kg ∈ inp.grouped := List.mem_of_getElem? hkg
+  have htmem : kg.2.getD i [] ∈ kg.2 := by
+    rw [List.getD_eq_getElem?_getD, List.getElem?_eq_getElem hi]; simp
+  have hall : kg.2.getD i [] ∈ inp.candsAll := groupBy_mem _ _ kg hkgmem _ htmem
+  obtain ⟨c, hc, hct⟩ := List.mem_map.mp hall
+  have hshape := candidates_shape inp.ppos inp.pelems inp.atol inp.maxSq inp.pos.length inp.nearPosL inp.nearElemL
+    (by simp [FindInput.nearPosL, FindInput.nearElemL]) hpp c hc
+  have hL : inp.nearElemL.length = inp.near.length := by simp [FindInput.nearElemL]
+  rw [hL] at hshape
+  rw [← hct] at hgood hmk
+  exact ⟨gi, i, c, hshape, hgood, hmk⟩
+
+/-- entry `k` of a candidate tuple, as an index into the image list: it is in range -/
+theorem near_getD_lt (inp : FindInput) (ck : Nat) (h : ck < inp.near.length) :
+    inp.near.getD ck 0 < inp.allPos.length := by
+  apply nearIndices_lt inp.cell inp.allPos inp.maxSq inp.atol
+  rw [List.getD_eq_getElem?_getD, List.getElem?_eq_getElem h]
+  exact List.getElem_mem h
+
 end Mofun
